@@ -754,6 +754,11 @@ class Backend:
 
         if env and env.varnames:
             reasons.append('to set env')
+            # A value with a newline cannot be written into a `env K=V ...`
+            # command line (ninja does not support newlines), it must be
+            # passed through the serialised wrapper.
+            if any('\n' in v for v in env.get_env({}).values()):
+                reasons.append('because environment contains newlines')
 
         if separator != ' ':
             reasons.append('to use a custom argument separator')
